@@ -16,7 +16,7 @@ open Sigc.Model
 def nullF (cid : Nat) (p : Option Nat) : Option Nat := if p = some cid then none else p
 
 theorem nullConns_eq (s : St) (cid : Nat) :
-    nullConns s cid = { s with C := amap s.C (nullF cid), K := amap s.K (nullF cid) } := rfl
+    nullConns s cid = { s with C := amap s.C (nullF cid), K := amap s.K (nullF cid), ownedK := amap s.ownedK (nullF cid) } := rfl
 
 @[simp] theorem nullConns_C (s : St) (cid : Nat) : (nullConns s cid).C = amap s.C (nullF cid) := rfl
 @[simp] theorem nullConns_K (s : St) (cid : Nat) : (nullConns s cid).K = amap s.K (nullF cid) := rfl
